@@ -196,7 +196,7 @@ K("C03.K.flavor.slice", DF, "verif_deflavor::slice_contract", {"C03": "D", "C04"
   fns=["postcard::de::flavors::Slice::new", "postcard::de::flavors::Slice::pop", "postcard::de::flavors::Slice::try_take_n", "postcard::de::flavors::Slice::finalize", "postcard::de::flavors::Slice::size_hint"],
   note="Hoare triple over a symbolic window: pop / try_take_n(any ct) / finalize results, cursor movement, returned slices at the exact input address; every dereference checked by CBMC")
 C04M = "postcard/src/lib.rs::verif_c04"
-for k, lab in [("struct", "bounded(input<=18 = max encoding of the probe struct)"), ("borrowed", "bounded(input<=8)"), ("scalars", "complete"), ("seq", "bounded(input<=8)")]:
+for k, lab in [("struct", "bounded(input<=18 = max encoding of the probe struct)"), ("borrowed", "bounded(input<=6)"), ("scalars", "complete"), ("seq", "bounded(input<=8)")]:
     K("C04.K.total." + k, C04M, "verif_c04::total_" + k, {"C04": "D"}, label=lab, needs=(REF, PROBES),
       fns=["postcard::take_from_bytes", "postcard::de::deserializer::*", "postcard::de::flavors::Slice::*"],
       note="no panic / overflow / out-of-bounds access on every byte string; remainder and borrowed fields lie inside the input")
@@ -538,7 +538,7 @@ K("C18.K.dyn.ser_total.string_json", DS, "verif_dynser::total_string_json", {"C1
   fns=["postcard_dyn::ser::ser_named_type (Char, String and scalar arms on string JSON)"], note="string JSON against Char / String / numeric kinds: result or error, never a panic", **DYN)
 
 for m in ["crc", "cobs"]:
-    K("C20.K.extend_equals_pushes_" + m, C20M, "verif_c20::extend_equals_pushes_" + m, {"C20": "D", "C10": "S", "C06": "S"}, needs=(REF, PROBES), label="bounded(block<=72, fixed byte pattern)",
+    K("C20.K.extend_equals_pushes_" + m, C20M, "verif_c20::extend_equals_pushes_" + m, {"C20": "D"}, needs=(REF, PROBES), label="bounded(block<=72, fixed byte pattern)",
       tier="quick" if m == "crc" else "thorough",
       fns=["postcard::ser::flavors::Flavor::try_extend (default or override) of " + ("crc::CrcModifier" if m == "crc" else "Cobs")],
       note="modifier flavour: ONE try_extend(block) == byte-wise try_push of the block, output and checksum/frame identical; CRC: concrete block lengths 0, 1, 9, 17, 33, 65, 72 (just past every power-of-two chunk size), Cobs: every length 0..=72")
